@@ -435,6 +435,59 @@ func C12MatchField(f *C12RefField, view any) C12FieldRes {
 	return res
 }
 
+// C12PathOutcomes says, per path of the field and in order, what the path yields in the credential view: "absent"
+// (selects nothing), "pass" / "fail" (selects a value that satisfies / violates the filter; without a filter every
+// selected value is "present"), "undefined" (documented error: the verdict is not defined) or "object" (an object
+// under a filter: violates it, and the implementation may report the documented ErrUnsupportedFilter).
+// Used for the evidence classes only.
+func C12PathOutcomes(f *C12RefField, view any) []string {
+	out := make([]string, 0, len(f.Path))
+	for _, p := range f.Path {
+		steps, ok := C12ParsePath(p)
+		if !ok {
+			out = append(out, "undefined")
+			continue
+		}
+		v, found := C12Eval(steps, view)
+		switch {
+		case !found:
+			out = append(out, "absent")
+		case f.Flt == nil:
+			out = append(out, "present")
+		default:
+			r := C12MatchFilter(f.Flt, v)
+			switch {
+			case r.ErrOK:
+				out = append(out, "undefined")
+			case r.ObjErr:
+				out = append(out, "object")
+			case r.Matched:
+				out = append(out, "pass")
+			default:
+				out = append(out, "fail")
+			}
+		}
+	}
+	return out
+}
+
+// C12EarlierFailsLaterPasses: some path yields a value violating the filter and a later path one satisfying it.
+func C12EarlierFailsLaterPasses(outcomes []string) bool {
+	failed := false
+	for _, o := range outcomes {
+		if o == "fail" {
+			failed = true
+		}
+		if o == "pass" && failed {
+			return true
+		}
+		if o == "pass" {
+			return false // the first passing path decides
+		}
+	}
+	return false
+}
+
 // ---------------------------------------------------------------------------------------------------------------------
 // format
 
